@@ -379,3 +379,10 @@ Proof.
     pose proof (ssort_length true (x_outside c)) as Hl. rewrite <- Hout in Hl. simpl in Hl.
     destruct (x_outside c); [reflexivity|discriminate].
 Qed.
+
+(* _convert_bool, exactly as the code spells it: case-insensitive true/false, 1/0, otherwise bool(text) *)
+Lemma conv_bool_spellings :
+  List.map conv_bool [q "True"; q "true"; q "TRUE"; q "tRuE"; q "1"; q "yes"; q "no"; q "f"; q "00"]
+  = [true; true; true; true; true; true; true; true; true]
+  /\ List.map conv_bool [q "False"; q "false"; q "FALSE"; q "fAlSe"; q "0"] = [false; false; false; false; false].
+Proof. vm_compute. split; reflexivity. Qed.
